@@ -4,7 +4,13 @@
 // genesis block.  For some target blocks every header-field and body mutation is produced
 // (same-hash bodies: altered / reordered / duplicated transactions, broken or foreign
 // transaction signatures, a block signature; new-hash blocks: state root, transaction root, height,
-// parent, time, difficulty, version, dropped / added / duplicated-tail / no transactions).  The
+// parent, time, difficulty, version, dropped / added / duplicated-tail / no transactions; every header
+// field at its EMPTY value: nil transaction root / state root / parent hash, all-zero parent hash,
+// height 0, a second genesis block, time 0, difficulty 0; block signatures - garbage, one bit altered,
+// truncated, made by another key, and a valid one - on the block as it is and on a copy without
+// transactions whose roots are right).  Block-signature bodies are delivered to receivers that do not
+// know the block's transactions, that hold all of them in the mempool (history entries with path 3
+// offer a variant's transactions to the receiver's mempool), and as blocks without transactions.  The
 // validity class of every (header, body) pair is computed by the harness independently of the
 // checks in util.PreExecBlock (signatures verified one by one, duplicate search in the body and the
 // ancestor bodies, re-execution on the factory WITHOUT checks and comparison of the roots).
@@ -20,6 +26,7 @@ import (
 	"fmt"
 	"os"
 	"sort"
+	"strings"
 	"syscall"
 	"time"
 
@@ -35,12 +42,33 @@ import (
 
 const unknownID = 999999
 
+// header ids given to the all-zero parent hash and to the empty one (Model.v zero_par, empty_par)
+const zeroParID = unknownID + 2
+const emptyParID = unknownID + 3
+
+// path code of a history entry that is no delivery: the transactions of the variant are offered to the
+// receiver's mempool
+const pathPool = 3
+
 func quiet() { log.SetLogLevel("crit") }
 
+// the block producer is configured off; ask it all the same until it has answered "not started"
 func stopMiner(m *testnode.Chain33Mock) {
 	cl := m.GetClient()
-	msg := cl.NewMessage("consensus", types.EventMinerStop, nil)
-	_ = cl.Send(msg, false)
+	answers := 0
+	for try := 0; try < 40 && answers < 1; try++ {
+		msg := cl.NewMessage("consensus", types.EventMinerStop, nil)
+		if err := cl.Send(msg, true); err != nil {
+			time.Sleep(50 * time.Millisecond)
+			continue
+		}
+		if _, err := cl.WaitTimeout(msg, 15*time.Second); err == nil || err.Error() == types.ErrMinerNotStared.Error() {
+			answers++
+		}
+	}
+	if answers < 1 {
+		panic("block producer did not answer the stop request")
+	}
 }
 
 func newNode(leveldb bool) *testnode.Chain33Mock {
@@ -50,6 +78,9 @@ func newNode(leveldb bool) *testnode.Chain33Mock {
 		cfg.GetModuleConfig().Store.Driver = "memdb"
 		cfg.GetModuleConfig().Wallet.Driver = "memdb"
 	}
+	// no block producer: a round of solo's CreateBlock that passed its "is mining" test before a stop
+	// request arrived would still pack the transactions offered to the mempool
+	cfg.GetModuleConfig().Consensus.Minerstart = false
 	m := testnode.NewWithConfig(cfg, nil)
 	quiet()
 	stopMiner(m)
@@ -149,7 +180,10 @@ func (w *world) ancTx(i int) map[string]bool {
 
 // oracle: validity class of block b on top of the genuine block par, computed without the node's checks.
 // 0 valid, 1 signature, 2 duplicate transaction, 3 failing transaction, 4 transaction root, 5 state root, 6 consensus rule.
-func (w *world) oracle(b *types.Block, par int) int {
+func (w *world) oracle(b *types.Block, par int) int { return w.oracleX(b, par, false) }
+
+// skipSig: the class of the first failing check AFTER the signature stage
+func (w *world) oracleX(b *types.Block, par int, skipSig bool) int {
 	if par < 0 || par >= w.nGen || w.gblk[par] == nil {
 		return 0 // never executed: the parent is unknown
 	}
@@ -157,12 +191,14 @@ func (w *world) oracle(b *types.Block, par int) int {
 	if b.Height != P.Height+1 {
 		return 0 // never executed: refused by the height test
 	}
-	if b.Signature != nil && !types.CheckSign(b.Hash(w.cfg), "", b.Signature, b.Height) {
-		return 1
-	}
-	for _, tx := range b.Txs {
-		if !tx.CheckSign(b.Height) {
+	if !skipSig {
+		if b.Signature != nil && !types.CheckSign(b.Hash(w.cfg), "", b.Signature, b.Height) {
 			return 1
+		}
+		for _, tx := range b.Txs {
+			if !tx.CheckSign(b.Height) {
+				return 1
+			}
 		}
 	}
 	seen := w.ancTx(par)
@@ -200,6 +236,10 @@ func (w *world) register(b *types.Block, name string, target int) int {
 		par := unknownID + 1
 		if p, ok := w.byHash[string(b.ParentHash)]; ok {
 			par = p
+		} else if bytes.Equal(b.ParentHash, make([]byte, 32)) {
+			par = zeroParID
+		} else if len(b.ParentHash) == 0 {
+			par = emptyParID
 		}
 		hi = len(w.hdrs)
 		w.hdrs = append(w.hdrs, &hdr{ID: hi, Par: par, Ht: b.Height, Work: work(b.Difficulty), Hash: hash})
@@ -310,8 +350,30 @@ func buildWorld(f *factory) *world {
 }
 
 var sameHashKinds = []string{"alter", "reorder", "dupin", "dupanc", "badsig", "blocksig", "resign"}
-var newHashBad = []string{"statehash", "txhash", "height", "parent", "timelow", "drop", "add", "duptail", "empty", "heavybad"}
-var newHashOK = []string{"timehigh", "heavy", "version"}
+var newHashBad = []string{"statehash", "txhash", "height", "parent", "timelow", "drop", "add", "duptail", "empty", "heavybad",
+	"txhash0", "statehash0", "parent0", "parentzero", "height0", "genesis2", "time0"}
+var newHashOK = []string{"timehigh", "heavy", "version", "diff0"}
+
+// header fields set to their empty value (nil / 0; for the parent hash also 32 zero bytes).  Version is 0 in
+// every genuine block already, TxCount is derived from the body ("empty").  parent0 / parentzero / height0 /
+// genesis2 are never executed: parent0 (nil ParentHash) makes blockExists panic in getHeaderByIndex once the
+// header table has two rows (open finding 5); the all-zero hash is the pre-genesis node of a freshly started
+// node's index (height -1): parentzero is refused by the height test, genesis2 (Height 0 as well) is stored
+// and indexed and then fails with ErrParentTdNoExist; height0 with a real parent goes to the orphan pool.
+var emptyFieldKinds = []string{"txhash0", "statehash0", "parent0", "parentzero", "height0", "genesis2", "time0", "diff0"}
+
+// block-signature bodies (same header hash as the block they are put on): garbage, a valid signature with one
+// bit altered, truncated, made by another key; "bsig-ok" is a valid block signature (a valid body)
+var blockSigBad = []string{"blocksig", "bsig-alt", "bsig-trunc", "bsig-key"}
+
+// never executed on arrival because the header is refused before (or the block waits for ever)
+func refusedHdr(name string) bool {
+	switch name {
+	case "height", "parent", "parent0", "parentzero", "height0", "genesis2":
+		return true
+	}
+	return false
+}
 
 func (w *world) mutate(g int) {
 	G := w.gblk[g]
@@ -357,6 +419,56 @@ func (w *world) mutate(g int) {
 	mut("duptail", func(b *types.Block) { b.Txs = append(b.Txs, types.CloneTx(b.Txs[2])) })
 	mut("empty", func(b *types.Block) { b.Txs = nil })
 	mut("heavybad", func(b *types.Block) { b.Difficulty = 0x1f0fffff; b.StateHash = flip(b.StateHash) })
+	// every header field at its empty value
+	mut("txhash0", func(b *types.Block) { b.TxHash = nil })
+	mut("statehash0", func(b *types.Block) { b.StateHash = nil })
+	mut("parent0", func(b *types.Block) { b.ParentHash = nil })
+	mut("parentzero", func(b *types.Block) { b.ParentHash = make([]byte, 32) })
+	mut("height0", func(b *types.Block) { b.Height = 0 })
+	mut("genesis2", func(b *types.Block) { b.Height = 0; b.ParentHash = make([]byte, 32) })
+	mut("time0", func(b *types.Block) { b.BlockTime = 0 })
+	mut("diff0", func(b *types.Block) { b.Difficulty = 0 })
+	if G.Version != 0 {
+		panic("genuine blocks are expected to have Version 0 (add a version0 mutation)")
+	}
+	// block signatures on the block as it is (its transactions are unknown to / pooled at the receiver) ...
+	w.sigMutants(G, g, "")
+	// ... and on a block without transactions whose roots are right (refused by the consensus rule only)
+	e := clone(G)
+	e.Txs = nil
+	d, _, err := util.ExecBlock(w.f.node.GetClient(), P.StateHash, clone(e), false, true, false)
+	if err != nil {
+		panic(fmt.Sprint("factory: exec of the empty block: ", err))
+	}
+	e.TxHash, e.StateHash = d.Block.TxHash, d.Block.StateHash
+	w.register(e, "emptyok", g)
+	w.sigMutants(e, g, "emptyok/")
+}
+
+// signed copies of b: the block signature is not covered by the header hash
+func (w *world) sigMutants(b *types.Block, g int, prefix string) {
+	key := w.f.node.GetGenesisKey()
+	_, other := util.Genaddress()
+	hash := b.Hash(w.cfg)
+	good := key.Sign(hash).Bytes()
+	mk := func(name string, pub, sig []byte) {
+		c := clone(b)
+		c.Signature = &types.Signature{Ty: types.SECP256K1, Pubkey: pub, Signature: sig}
+		if !bytes.Equal(c.Hash(w.cfg), hash) {
+			panic("block signature changed the header hash")
+		}
+		w.register(c, prefix+name, g)
+	}
+	pub := key.PubKey().Bytes()
+	if prefix != "" { // the plain block got its "blocksig" body before
+		mk("blocksig", pub, []byte("not a signature"))
+	}
+	alt := append([]byte{}, good...)
+	alt[len(alt)-1] ^= 1
+	mk("bsig-alt", pub, alt)
+	mk("bsig-trunc", pub, good[:len(good)-3])
+	mk("bsig-key", pub, other.Sign(hash).Bytes())
+	mk("bsig-ok", pub, good)
 }
 
 func (w *world) v(target int, name string) int {
@@ -370,7 +482,10 @@ func (w *world) v(target int, name string) int {
 // ---------- one history ----------
 
 type histIn struct {
-	Dels    [][2]int `json:"dels"` // (variant index, path 0 broadcast / 1 sync / 2 download)
+	// (variant index, path 0 broadcast / 1 sync / 2 download); path 3 is no delivery: the variant's
+	// transactions are offered to the receiver's mempool
+	Dels    [][2]int `json:"dels"`
+	Sig     *sigIn   `json:"sig,omitempty"` // a signature-stage case (sig.go) instead of a history
 	Kind    string   `json:"kind"`
 	LevelDB bool     `json:"leveldb"`
 	Names   []string `json:"names,omitempty"`
@@ -384,6 +499,9 @@ type stepOut struct {
 	Tip    int    `json:"tip"`
 	TipTd  string `json:"tiptd"`
 	Served int    `json:"served"`
+	NTx    int    `json:"ntx"`    // transactions in the delivered block ...
+	Pooled int    `json:"pooled"` // ... and how many of them the receiver's mempool held just before
+	NoPar  bool   `json:"nopar,omitempty"` // the delivered block has an empty ParentHash (open finding 5 when it panics)
 }
 
 type histOut struct {
@@ -393,6 +511,65 @@ type histOut struct {
 	TxOK   bool      `json:"txok"`
 	StOK   bool      `json:"stok"`
 	Note   string    `json:"note,omitempty"`
+	Sig    *sigOut   `json:"sig,omitempty"`
+}
+
+// deliveries of a history (pool offers left out)
+func deliveries(dels [][2]int) [][2]int {
+	var d [][2]int
+	for _, dl := range dels {
+		if dl[1] != pathPool {
+			d = append(d, dl)
+		}
+	}
+	return d
+}
+
+// which of the transactions the node's mempool holds (by Hash, as util.PreExecBlock asks)
+func poolFlags(m *testnode.Chain33Mock, txs []*types.Transaction) []bool {
+	if len(txs) == 0 {
+		return nil
+	}
+	req := &types.ReqCheckTxsExist{TxHashes: make([][]byte, len(txs))}
+	for i, tx := range txs {
+		req.TxHashes[i] = tx.Hash()
+	}
+	cl := m.GetClient()
+	msg := cl.NewMessage("mempool", types.EventCheckTxsExist, req)
+	if err := cl.Send(msg, true); err != nil {
+		panic(err)
+	}
+	rp, err := cl.WaitTimeout(msg, 20*time.Second)
+	if err != nil {
+		panic(err)
+	}
+	r := rp.GetData().(*types.ReplyCheckTxsExist)
+	fl := make([]bool, len(txs))
+	copy(fl, r.ExistFlags)
+	return fl
+}
+
+func countTrue(fl []bool) int {
+	n := 0
+	for _, f := range fl {
+		if f {
+			n++
+		}
+	}
+	return n
+}
+
+// offer transactions to the node's mempool; every one must be taken
+func poolTxs(m *testnode.Chain33Mock, txs []*types.Transaction) {
+	for _, tx := range txs {
+		rep, err := m.GetAPI().SendTx(types.Clone(tx).(*types.Transaction))
+		if err != nil || rep == nil || !rep.IsOk {
+			panic(fmt.Sprint("mempool refused a transaction of a genuine block: ", err))
+		}
+	}
+	if fl := poolFlags(m, txs); countTrue(fl) != len(txs) {
+		panic("mempool does not hold the offered transactions")
+	}
 }
 
 func errClass(err error) int {
@@ -476,15 +653,20 @@ func (w *world) run(in histIn) (out histOut, panicked string) {
 	used := map[int]bool{0: true}
 	for _, dl := range in.Dels {
 		v := w.vars[dl[0]]
+		if dl[1] == pathPool {
+			poolTxs(n.m, v.Blk.Txs)
+			continue
+		}
 		used[v.H] = true
+		pooled := countTrue(poolFlags(n.m, v.Blk.Txs))
 		m, o, err, pan := process(v.Blk, dl[1])
-		st := stepOut{Main: m, Orphan: o, Err: errClass(err)}
+		st := stepOut{Main: m, Orphan: o, Err: errClass(err), NTx: len(v.Blk.Txs), Pooled: pooled, NoPar: len(v.Blk.ParentHash) == 0}
 		if err != nil {
 			st.ErrS = err.Error()
 		}
 		if pan != "" {
 			// a panic inside ProcessBlock is an observable (error class 7); the history goes on
-			st = stepOut{Err: 7, ErrS: "panic: " + pan}
+			st = stepOut{Err: 7, ErrS: "panic: " + pan, NTx: len(v.Blk.Txs), Pooled: pooled, NoPar: len(v.Blk.ParentHash) == 0}
 			panicked = pan
 		}
 		last := n.store.LastHeader()
@@ -587,6 +769,10 @@ func (w *world) closure(used map[int]bool) []int {
 // ---------- Gallina rendering ----------
 
 func (w *world) render(in histIn, out histOut) string {
+	if in.Sig != nil {
+		return renderSig(in.Sig, out.Sig)
+	}
+	in.Dels = deliveries(in.Dels)
 	used := map[int]bool{0: true}
 	for _, dl := range in.Dels {
 		used[w.vars[dl[0]].H] = true
@@ -682,7 +868,17 @@ func main() {
 		in.Names = nil
 		for _, dl := range in.Dels {
 			v := w.vars[dl[0]]
-			in.Names = append(in.Names, fmt.Sprintf("%d/%s", v.Target, v.Name))
+			nm := fmt.Sprintf("%d/%s", v.Target, v.Name)
+			if dl[1] == pathPool {
+				nm = "pool the transactions of " + nm
+			}
+			in.Names = append(in.Names, nm)
+		}
+		if in.Sig != nil {
+			so := w.runSig(in.Sig)
+			out := histOut{Sig: so}
+			o.Emit(in.Kind, so.Err >= 10, w.render(in, out), in, out)
+			return
 		}
 		out, pan := w.run(in)
 		if pan != "" {
@@ -717,6 +913,12 @@ func main() {
 		if over() {
 			return
 		}
+		// a delivered block with an empty ParentHash makes ProcessBlock panic (open finding 5)
+		for _, dl := range dels {
+			if dl[1] != pathPool && len(w.vars[dl[0]].Blk.ParentHash) == 0 && strings.HasPrefix(kind, "guarded/") {
+				kind = "unrestricted/" + strings.TrimPrefix(kind, "guarded/")
+			}
+		}
 		emit(histIn{Dels: dels, Kind: kind, LevelDB: count%8 == 7})
 		count++
 	}
@@ -750,6 +952,48 @@ func main() {
 				run(kind, cat(g.genuine(seq(1, tgt-1)...), [][2]int{{vi, pp[0]}, {w.gvar[tgt], pp[1]}}, g.genuine(tgt+1), [][2]int{{w.gvar[tgt], g.path()}}))
 			}
 		}
+		// S. block signatures (altered / truncated / other key / garbage) on blocks whose transactions are
+		// (a) unknown to the receiver, (b) all in the receiver's mempool, (c) none at all; the validity class
+		// says "signature" in all three.  Plus valid signed copies and pooled header mutants.
+		for ti, tgt := range []int{3, 13} {
+			pre := func() [][2]int { return g.genuine(seq(1, tgt-1)...) }
+			pool := [][2]int{{w.gvar[tgt], pathPool}}
+			for ki, name := range blockSigBad {
+				pp := pathPairs[(ki+ti+round)%len(pathPairs)]
+				vi := w.v(tgt, name)
+				tail := func() [][2]int {
+					return cat([][2]int{{vi, pp[0]}, {w.gvar[tgt], pp[1]}}, g.genuine(tgt+1), [][2]int{{w.gvar[tgt], g.path()}})
+				}
+				if name != "blocksig" { // stream A has that one
+					run("unrestricted/blocksig-txs-unknown", cat(pre(), tail()))
+				}
+				run("unrestricted/blocksig-txs-pooled", cat(pre(), pool, tail()))
+				run("guarded/blocksig-no-txs", cat(pre(), [][2]int{{w.v(tgt, "emptyok/"+name), pp[0]}, {w.v(tgt, "emptyok"), pp[1]}}, g.genuine(tgt, tgt+1)))
+			}
+			run("guarded/signed-valid-txs-unknown", cat(pre(), [][2]int{{w.v(tgt, "bsig-ok"), g.path()}}, g.genuine(tgt+1)))
+			run("guarded/signed-valid-txs-pooled", cat(pre(), pool, [][2]int{{w.v(tgt, "bsig-ok"), g.path()}}, g.genuine(tgt+1)))
+			run("guarded/signed-no-txs", cat(pre(), [][2]int{{w.v(tgt, "emptyok/bsig-ok"), g.path()}}, g.genuine(tgt, tgt+1)))
+			for ki, name := range append([]string{"txhash", "statehash"}, emptyFieldKinds...) {
+				if (ki+ti+round)%2 == 0 || name == "txhash0" || name == "statehash0" {
+					pp := pathPairs[(ki+ti+round)%len(pathPairs)]
+					kind := "guarded/tip-newhash-txs-pooled"
+					run(kind, cat(pre(), pool, [][2]int{{w.v(tgt, name), pp[0]}, {w.gvar[tgt], pp[1]}}, g.genuine(tgt+1)))
+				}
+			}
+		}
+		// T. the signature stage alone (sig.go)
+		for _, si := range sigCases(g.r, round) {
+			if over() {
+				break
+			}
+			si := si
+			kind := "sig/guarded"
+			if shortcut(&si) {
+				kind = "sig/unrestricted-pooled-tx-with-bad-signature"
+			}
+			emit(histIn{Kind: kind, Sig: &si})
+			count++
+		}
 		// B. mutated side block (not executed on arrival), the genuine one, then the branch overtakes
 		for ki, name := range allKinds {
 			pp := pathPairs[(ki+round)%len(pathPairs)]
@@ -757,7 +1001,7 @@ func main() {
 			kind := "unrestricted/side-mutant-then-reorg"
 			if w.vars[vi].H != idR13 && w.vars[vi].Class == 0 {
 				kind = "guarded/side-valid-sibling-then-reorg"
-				if name == "height" || name == "parent" {
+				if refusedHdr(name) {
 					kind = "guarded/side-refused-header-then-reorg" // never executed: wrong height / unknown parent
 				}
 			}
@@ -775,7 +1019,7 @@ func main() {
 			kind := "unrestricted/heavy-side-mutant"
 			if w.vars[vi].Class == 0 {
 				kind = "guarded/heavy-side-valid-sibling"
-				if name == "height" || name == "parent" {
+				if refusedHdr(name) {
 					kind = "guarded/heavy-side-refused-header"
 				}
 			}
@@ -794,7 +1038,7 @@ func main() {
 				// a new-hash orphan below the margin, refused or not, is inside the guard of
 				// C27_rejected_invisible_partial: ProcessOrphans drops it and goes on
 				kind = "guarded/orphan-newhash"
-				if w.vars[vi].Class == 0 && name != "height" {
+				if w.vars[vi].Class == 0 && name != "height" && name != "height0" && name != "genesis2" && name != "parentzero" {
 					kind = "guarded/orphan-valid-sibling-or-parentless"
 				}
 			}
@@ -886,6 +1130,13 @@ func main() {
 			d := g.genuine(ids...)
 			for m := g.r.Range(2, 7); m > 0; m-- {
 				vi := 1 + g.r.Intn(len(w.vars)-1)
+				if v := w.vars[vi]; v.Class == 0 && v.B != 0 {
+					// a second valid body under a hash (the validly signed copy): "block exists" is the right
+					// answer to it once the unsigned block is there, and the other way round; the spec's clause
+					// FExist speaks about one valid body per hash, so the two never meet in one history (the
+					// signed copies have their own histories in stream S)
+					continue
+				}
 				pos := g.r.Intn(len(d) + 1)
 				e := [2]int{vi, g.path()}
 				d = append(d[:pos], append([][2]int{e}, d[pos:]...)...)
